@@ -714,6 +714,39 @@ func (m c01) Run(c *core.Ctx) {
 			}
 		}
 	}
+	// (1d) deep expressions: operand chains, parentheses, array / map literals, calls, index and unary chains nested
+	// 3 .. 300 levels (the optimizer keeps per-level state for the expression it walks), constant and non-constant
+	// operands, at top level and inside a function literal
+	for _, depth := range []int{3, 31, 32, 33, 62, 63, 64, 65, 66, 70, 127, 128, 129, 200, 300} {
+		for _, operand := range []string{"1", "s", "\"a\""} {
+			var shapes []string
+			shapes = append(shapes, strings.TrimSuffix(strings.Repeat(operand+" + ", depth), " + "))
+			shapes = append(shapes, strings.Repeat("(", depth)+operand+strings.Repeat(")", depth))
+			shapes = append(shapes, strings.Repeat("[", depth)+operand+strings.Repeat("]", depth))
+			shapes = append(shapes, strings.Repeat("{k: ", depth)+operand+strings.Repeat("}", depth))
+			shapes = append(shapes, strings.Repeat("id(", depth)+operand+strings.Repeat(")", depth))
+			shapes = append(shapes, strings.Repeat("[", depth)+operand+strings.Repeat("][0]", depth))
+			shapes = append(shapes, strings.Repeat("-(", depth)+"2"+strings.Repeat(")", depth))
+			shapes = append(shapes, strings.Repeat("(true ? ", depth)+operand+strings.Repeat(" : 0)", depth))
+			for si, sh := range shapes {
+				idx++
+				if idx%c.NBatch != c.Batch {
+					continue
+				}
+				sh := sh
+				if !c.Begin(func() string { return fmt.Sprintf("deep expression depth=%d shape=%d operand=%s", depth, si, operand) }) {
+					continue
+				}
+				for _, wrap := range []string{"global L\ns := 2\nid := func(x) { return x }\nr := %s\nreturn string(r)\n", "global L\ns := 2\nid := func(x) { return x }\nf := func() {\n  return %s\n}\nreturn string(f())\n"} {
+					p := &Program{Src: fmt.Sprintf(wrap, sh), Tags: []string{"deep-expression"}}
+					if m.check(c, p, nil, noGlobals, []int{1, 100}) {
+						c.Nontrivial(progHash(p))
+					}
+					c.Count("deep_expression_cases")
+				}
+			}
+		}
+	}
 	// (2) folding table
 	for _, op := range c01ops {
 		for _, l := range c01literals {
